@@ -68,7 +68,7 @@ Lemma filter_length_remove (P : svc * alloc -> bool) l s al :
 Proof.
   induction l as [|[s0 a0] l IH]; intros Hnd Hin; [destruct Hin|].
   cbn in Hnd. inversion Hnd as [|? ? Hn Hd]; subst. cbn [remove_svc filter fst].
-  destruct (N.eqb_spec s0 s) as [->|Hne]; cbn [negb].
+  destruct (N.eqb_spec s0 s) as [->|Hne]; cbn [negb filter].
   - assert (a0 = al).
     { destruct Hin as [H|H]; [congruence|]. exfalso. apply Hn. apply in_map_iff. exists (s, al). auto. }
     subst a0.
@@ -76,12 +76,12 @@ Proof.
     { apply (adel_notin N.eqb). apply (aget_None_notin N.eqb N.eqb_eq). exact Hn. }
     unfold remove_svc in Hrm. rewrite Hrm. destruct (P (s, al)); cbn; lia.
   - destruct Hin as [H|Hin]; [congruence|]. specialize (IH Hd Hin). unfold remove_svc in IH.
-    destruct (P (s0, a0)); cbn; rewrite IH; lia.
+    destruct (P (s0, a0)); cbn [length]; rewrite IH; reflexivity.
 Qed.
 
 Lemma users_remove a s al n x :
   NoDup (map fst (allocated a)) -> In (s, al) (allocated a) ->
-  users a n x = (users (unassign a s) n x + (if (a_pool al =? n) && mem_ip x (a_ips al) then 1 else 0))%Z.
+  users a n x = (users (unassign a s) n x + (if (a_pool al =? n)%N && mem_ip x (a_ips al) then 1 else 0))%Z.
 Proof.
   intros Hnd Hin. unfold users. cbn [unassign allocated].
   rewrite (filter_length_remove _ _ s al Hnd Hin). cbn [snd].
@@ -228,8 +228,8 @@ Proof.
         rewrite (mem_ip_true _ _ Hxt) in Hm. discriminate.
       * intros [alt [Ht Hxt]]. apply Hal' in Ht. exists alt. tauto.
   - (* counts *)
-    intros n x. unfold m'. rewrite (ufold_count s al _ m0 n x Hind Hpres), U0, C0.
-    rewrite Habs. pose proof (users_remove (abs m) s al n x Hnd Hin) as Hu.
+    intros n x. rewrite Habs. unfold m'. rewrite (ufold_count s al _ m0 n x Hind Hpres), U0, C0.
+    pose proof (users_remove (abs m) s al n x Hnd Hin) as Hu.
     rewrite (cnt_users m n x HC), (coh_count m HC).
     rewrite (N.eqb_sym n (a_pool al)). destruct ((a_pool al =? n) && mem_ip x (a_ips al)).
     + f_equal. lia.
@@ -290,7 +290,7 @@ Qed.
 
 Lemma users_cons a s al n x :
   users {| s_pools := s_pools a; allocated := (s, al) :: allocated a |} n x =
-  (users a n x + (if (a_pool al =? n) && mem_ip x (a_ips al) then 1 else 0))%Z.
+  (users a n x + (if (a_pool al =? n)%N && mem_ip x (a_ips al) then 1 else 0))%Z.
 Proof.
   unfold users. cbn [allocated filter snd]. destruct ((a_pool al =? n) && mem_ip x (a_ips al)); cbn [length]; lia.
 Qed.
@@ -345,7 +345,7 @@ Proof.
         -- exfalso. apply andb_true_iff in Hm. destruct Hm as [H1 H2]. apply mem_ip_In in H1. apply mem_port_In in H2.
            destruct (Hcomp (t, alt) x Ht Hne H1 Hxt) as (_ & _ & _ & Hdis). apply (Hdis p Hpt H2).
         -- apply (coh_ports m HC). exists alt. auto.
-  - intros x t. unfold m'. rewrite (afold_svcs s al _ m0 x Hind), Hal'. change (svcs_on m0 x) with (svcs_on m x).
+  - intros x t. rewrite Hal'. unfold m'. rewrite (afold_svcs s al _ m0 x Hind). change (svcs_on m0 x) with (svcs_on m x).
     destruct (mem_ip x (a_ips al)) eqn:Hm.
     + rewrite In_add_svc, (coh_svcs m HC). apply mem_ip_In in Hm. split.
       * intros [->|[alt [Ht Hxt]]]; [exists al; split; [left; reflexivity|exact Hm]|exists alt; split; [right; exact Ht|exact Hxt]].
